@@ -7,8 +7,8 @@
 package layers
 
 import (
-	"errors"
 	"encoding/binary"
+	"errors"
 
 	"github.com/gopacket/gopacket"
 )
